@@ -161,13 +161,13 @@ Variable f : option (dec -> currency -> dec).
 
 (* Every new cell: NULL or a decimal; a decimal is the (possibly quantized) exact sum u of the
    units of that currency over the lots of the original cell; NULL only when there are no such
-   units, or their sum is zero, or it quantizes to zero. *)
+   units or their sum is zero. *)
 Theorem conv_cell_units dt cur c e :
   dt_amountlike dt = true -> cell_ok dt c = true ->
   e <= 0 -> (forall d, In d (units_of cur c) -> e <= dexp d) ->
   exists u, e <= dexp u /\ sc e u = sum_sc e (units_of cur c) /\
     ((conv_cell f dt cur c = cnull /\
-      (units_of cur c = [] \/ dec_is_zero u = true \/ dec_is_zero (quant f u cur) = true))
+      (units_of cur c = [] \/ dec_is_zero u = true))
      \/ conv_cell f dt cur c = CPlain (VDec (quant f u cur))).
 Proof.
   intros Hdt Hok He Hl.
@@ -179,7 +179,7 @@ Proof.
     destruct (str_eqb (acur a) cur) eqn:E; simpl in *.
     + exists (anum a). split; [apply Hl; left; reflexivity|]. split; [lia|].
       destruct (dec_is_zero (anum a)) eqn:Z; simpl.
-      * left. split; [reflexivity|]. right. left. reflexivity.
+      * left. split; [reflexivity|]. right. reflexivity.
       * right. reflexivity.
     + exists dzero. split; [exact He|]. split; [reflexivity|]. left. rewrite andb_false_r.
       split; [reflexivity|left; reflexivity].
@@ -191,10 +191,8 @@ Proof.
     exists (inv_units cur i). split; [apply inv_units_exp; assumption|].
     split; [apply inv_units_sc; assumption|].
     simpl. destruct (dec_is_zero (inv_units cur i)) eqn:Z; simpl.
-    + rewrite Z. left. split; [reflexivity|]. right. left. reflexivity.
-    + destruct (dec_is_zero (quant f (inv_units cur i) cur)) eqn:Z2.
-      * left. split; [reflexivity|]. right. right. reflexivity.
-      * right. reflexivity.
+    + left. split; [reflexivity|]. right. reflexivity.
+    + right. reflexivity.
 Qed.
 
 (* A currency absent from the cell gives NULL (never a zero). *)
@@ -214,7 +212,7 @@ Proof.
   destruct dt, c; simpl; auto.
   - destruct (_ && _); eauto.
   - destruct (str_eqb _ _); eauto.
-  - match goal with |- context [if dec_is_zero ?x then _ else _] => destruct (dec_is_zero x) end; eauto.
+  - destruct (dec_is_zero _); eauto.
 Qed.
 End Cell.
 
@@ -228,9 +226,8 @@ Corollary conv_cell_units_noformat dt cur c e :
 Proof.
   intros Hdt Hok He Hl.
   destruct (conv_cell_units None dt cur c e Hdt Hok He Hl) as [u [Hx [Hu [[Hn Hz]|Hd]]]].
-  - left. split; [exact Hn|]. destruct Hz as [Hz|[Hz|Hz]].
+  - left. split; [exact Hn|]. destruct Hz as [Hz|Hz].
     + rewrite Hz. reflexivity.
-    + rewrite <- Hu. apply sc_zero. exact Hz.
     + rewrite <- Hu. apply sc_zero. exact Hz.
   - right. exists u. split; [exact Hd|]. split; [exact Hx|exact Hu].
 Qed.
@@ -289,7 +286,7 @@ Theorem conv_cell_value_fmt f dt cur c :
   dt_amountlike dt = true -> cell_ok dt c = true ->
   exists u, (dec_q u == sum_q (units_of cur c))%Q /\
     ((conv_cell f dt cur c = cnull /\
-      (units_of cur c = [] \/ dec_is_zero u = true \/ dec_is_zero (quant f u cur) = true))
+      (units_of cur c = [] \/ dec_is_zero u = true))
      \/ conv_cell f dt cur c = CPlain (VDec (quant f u cur))).
 Proof.
   intros Hdt Hok. set (e := lo (units_of cur c)).
